@@ -48,7 +48,7 @@ class SnowfakeryApplication:
     including the Snowfakery CLI and CumulusCI"""
 
     stopping_criteria = None
-    starting_id = 0
+    starting_id = None  # id of the stopping table at the previous iteration boundary
     rep_count = 0
 
     def __init__(self, stopping_criteria: StoppingCriteria = None):
@@ -81,6 +81,11 @@ class SnowfakeryApplication:
             return False
 
         last_used_id = id_manager[self.stopping_tablename]
+
+        if self.starting_id is None:
+            # first boundary of this run: compare with where this run started
+            # (1 for a fresh run, the continuation's last id + 1 otherwise)
+            self.starting_id = id_manager.start_ids.get(self.stopping_tablename, 1) - 1
 
         if last_used_id == self.starting_id:
             raise RuntimeError(
